@@ -104,7 +104,58 @@ def c03_extra(rep, rnd, first_id):
             data = bytes(rnd.randrange(256) for _ in range(start)) + body[:cut]
             out.append(codec.parse_record(first_id + len(out), scn, data, start, True, both=True))
     out += anon_context_family(rnd, first_id + len(out), 300 if rep.tier == "thorough" else 50)
+    out += overlay_family(rnd, first_id + len(out), 300 if rep.tier == "thorough" else 40)
     return out
+
+
+def overlay_family(rnd, first_id, n):
+    """Fields added with explicit offsets (forward gaps, overlays going backwards): the specification has no layout rule for
+    them, but both readers must return the same thing (records of kind `readers`)."""
+    import io
+
+    from dissect.cstruct import cstruct
+
+    out = []
+    names = ["uint8", "uint16", "uint32", "int24", "char", "uint64"]
+    for _ in range(n):
+        mode = codec.gen_mode(rnd)
+        base = [rnd.choice(names) for _ in range(rnd.randrange(1, 4))]
+        adds = [(rnd.choice(names), rnd.choice([None, 0, 1, 2, 3, 5, 8, 12])) for _ in range(rnd.randrange(1, 5))]
+        text = "struct OV { " + " ".join(f"{ty} b{i};" for i, ty in enumerate(base)) + " };"
+        desc = text + " + " + ", ".join(f"{ty} @ {off}" for ty, off in adds)
+        data = bytes(range(1, 41))
+        start = codec.start_for(rnd, {"mode": mode})
+        stream_data = bytes(rnd.randrange(256) for _ in range(start)) + data
+        obs = {}
+        for key, compiled in (("", True), ("2", False)):
+            cs = codec.new_cs(mode)
+            cs.load(text, compiled=compiled, align=mode["align"])
+            T = cs.OV
+            try:
+                for i, (ty, off) in enumerate(adds):
+                    T.add_field(f"x{i}", cs.resolve(ty), offset=off)
+            except Exception as e:  # noqa: BLE001
+                obs["layout" + key] = {"size": -2, "align": 0, "offs": []}
+                obs["res" + key] = {"status": "error", "exc": f"add_field: {type(e).__name__}: {e}"[:150], "v": codec.NONE_V, "pos": 0, "sizes": []}
+                continue
+            st = io.BytesIO(stream_data)
+            st.seek(start)
+            try:
+                v = T.read(st)
+                vals = [[f._name, repr(getattr(v, f._name))] for f in T.__fields__]
+                obs["res" + key] = {"status": "ok", "exc": "", "v": {"k": "raw", "fields": vals}, "pos": st.tell(), "sizes": codec.sizes_of(v, T)}
+            except Exception as e:  # noqa: BLE001
+                obs["res" + key] = {"status": codec.classify(e), "exc": f"{type(e).__name__}: {e}"[:150], "v": codec.NONE_V, "pos": 0, "sizes": []}
+            obs["layout" + key] = A_project_layout(T)
+        out.append({"id": first_id + len(out), "kind": "readers", "type": {"k": "void"}, "mode": mode, "consts": {"_": 0}, "input": list(stream_data),
+                    "start": start, "defs": desc, "req_compiled": True, "tag": "overlay", "obs": obs})
+    return out
+
+
+def A_project_layout(T):
+    from harness import absyn as A
+
+    return A.project_layout(T)
 
 
 CHECKS["C03"] = CodecCheck(
